@@ -108,6 +108,10 @@ def write_evidence(pid, tier, seed, keys, reports, obligations, standins,
         pass
     except FileNotFoundError:
         pass
-    os.makedirs(os.path.join(ROOT, "evidence"), exist_ok=True)
-    with open(os.path.join(ROOT, "evidence", f"{pid}.json"), "w") as fh:
+    # runs against a scratch copy (PYVC_REPO_SRC, used to try seeded changes)
+    # never overwrite the evidence of /repo itself
+    sub = "evidence" if os.environ.get("PYVC_REPO_SRC", "/repo/src") == "/repo/src" \
+        else os.path.join("replays", "scratch-evidence")
+    os.makedirs(os.path.join(ROOT, sub), exist_ok=True)
+    with open(os.path.join(ROOT, sub, f"{pid}.json"), "w") as fh:
         json.dump(ev, fh, indent=1, default=str)
